@@ -266,9 +266,28 @@ func (g *Gen) findWitness(o *Oblig, dir string, timeoutS int) {
 		terms = append(terms, w[1])
 	}
 	gv := "(get-value (" + strings.Join(terms, " ") + "))\n"
+	// For the search only: pin implementation-defined float->int conversions to what amd64 produces
+	// (the "integer indefinite" value), so that the candidate is one this machine can reproduce.
+	pin := ""
+	for _, d := range g.decls {
+		if strings.HasPrefix(d, "(declare-const fptoint_undef!") {
+			f := strings.Fields(strings.Trim(d, "()"))
+			name := f[1]
+			switch {
+			case strings.Contains(d, "(_ BitVec 64)") && g.fpUndefSigned[name]:
+				pin += "(assert (= " + name + " #x8000000000000000))\n"
+			case strings.Contains(d, "(_ BitVec 32)") && g.fpUndefSigned[name]:
+				pin += "(assert (= " + name + " #x80000000))\n"
+			case strings.Contains(d, "(_ BitVec 32)"):
+				pin += "(assert (= " + name + " #x00000000))\n"
+			}
+		}
+	}
 	try := func(dropQuant bool) map[string]string {
 		file := filepath.Join(dir, sanitize(o.Name)+fmt.Sprintf(".wit%v.smt2", dropQuant))
-		os.WriteFile(file, []byte(g.SMTForOpts(o, dropQuant)+gv), 0o644)
+		q := g.SMTForOpts(o, dropQuant)
+		q = strings.Replace(q, "(check-sat)\n", pin+"(check-sat)\n", 1)
+		os.WriteFile(file, []byte(q+gv), 0o644)
 		for _, sc := range solvers[:2] {
 			r := runSolver(context.Background(), sc, file, timeoutS, true)
 			if r.status == "sat" {
